@@ -194,6 +194,30 @@ func c02Scenarios() []scenario {
 			w.Restart()
 			return w, err
 		}},
+		{name: "reorg-of-the-whole-history-start-at-head", reorg: true, build: func(t fataler) (*World, error) {
+			// fresh start at the head: one position; the reorg replaces that very block
+			w, err := buildWorld(t, 1, 1, 5, xferDecl("xfer", 0, false))
+			if err == nil {
+				stepN(w, 0, 2)
+				reorgAt(w, 5, 3)
+			}
+			return w, err
+		}},
+		{name: "reorg-of-the-whole-history-batch-3", reorg: true, build: func(t fataler) (*World, error) {
+			w, err := buildWorld(t, 3, 1, 7, xferDecl("xfer", 0, false))
+			if err == nil {
+				stepN(w, 0, 1)
+				nd := w.Sources[0].Node
+				nd.Lock()
+				nd.Chain.Append(xferTxs(8))
+				nd.Chain.Append(xferTxs(9))
+				nd.Unlock()
+				w.Restart()
+				stepN(w, 0, 1)
+				reorgAt(w, 6, 5)
+			}
+			return w, err
+		}},
 		{name: "reference-lookup", target: 1, build: func(t fataler) (*World, error) {
 			ref := simpleTxDecl("reftx", 1)
 			ref.Block = append(ref.Block, refmodel.BlockField{Name: "tx_signer", Column: "tx_signer"})
@@ -482,8 +506,15 @@ func TestC02_MultiFault(t *testing.T) {
 					continue
 				}
 				depth := rapid.IntRange(1, min(4, int(head-low-1))).Draw(rt, "depth")
+				minLen := max(0, depth-1)
+				if whole := int(head-low) + 1; low >= 2 && whole <= 8 && rapid.IntRange(0, 3).Draw(rt, "wholehistory") == 0 {
+					// the reorg takes every position the lowest task has recorded (e.g. the first
+					// block indexed after a fresh start at the head)
+					depth, minLen = whole, whole
+					m.label("whole-history-reorg")
+				}
 				var txs [][]sim.Tx
-				for j := rapid.IntRange(max(0, depth-1), depth+2).Draw(rt, "newlen"); j > 0; j-- {
+				for j := rapid.IntRange(minLen, depth+2).Draw(rt, "newlen"); j > 0; j-- {
 					txs = append(txs, genTxsFor(rt, m))
 				}
 				m.doReorg(st, s, head-uint64(depth)+1, txs, false)
